@@ -51,5 +51,20 @@ void std::vector<CPPManifest::ExpansionNode>::_M_realloc_insert<CPPManifest::Exp
   ++_M_impl._M_finish;
 }
 
-#define CUT_NOTE_FIXEDVEC 1
+// A std::string of symbolic length len <= cap <= 15 and symbolic contents, built so that
+//  (a) no heap path exists in the encoded program: constructing from a *symbolic* length drags libstdc++'s "longer
+//      than 15 bytes -> allocate" branch along, and that allocation (an object of symbolic size) then sits in the
+//      points-to set of every later read of the string;
+//  (b) nothing is ever stored at a symbolic offset inside the string object: such a store (e.g. the terminating NUL
+//      at [len]) is encoded as an update of the whole object, after which the solver no longer knows the object's
+//      own data pointer and every later s[i] becomes a read through an unknown pointer.
+// So: the caller zero-fills buf[len..cap], the string is constructed with the *constant* length cap (the heap branch
+// folds away at compile time, the NUL lands at the constant offset cap), and only the length field is lowered.
+#define SYMBOLIC_STRING(name, buf, cap, len) \
+  std::string name((buf), (size_t)(cap));    \
+  name._M_string_length = (size_t)(len)
+// buf[i] = (i < len) ? <symbolic char from pick()> : 0, for i in 0..cap
+#define FILL_SYMBOLIC(buf, cap, len, pick) \
+  for (int i_ = 0; i_ < (cap); i_++) { char c_ = pick(); (buf)[i_] = (i_ < (len)) ? c_ : (char)0; } \
+  (buf)[(cap)] = 0
 #endif
